@@ -35,10 +35,10 @@ def main():
         if os.path.exists(path):
             with open(path) as f:
                 led = json.load(f)
-        led[f'{prop}:{a.tier}'] = sorted(set(names))
+        led[f'{prop}:{a.tier}'] = driver.ledger_names(names)
         with open(path, 'w') as f:
             json.dump(led, f, indent=0, sort_keys=True)
-        print(f'ledger updated: {len(set(names))} obligation names for {prop}:{a.tier}')
+        print(f'ledger updated: {len(driver.ledger_names(names))} obligation names for {prop}:{a.tier}')
     sys.exit(code)
 
 
